@@ -43,8 +43,11 @@ def bind_repo():
     if sys.path[0] != REPO:
         sys.path.insert(0, REPO)
     import warnings
+    import logging
     warnings.simplefilter('ignore')
+    warnings.showwarning = lambda *a, **k: None   # the library re-arms the warning filters inside its solver loop
     import py_ballisticcalc  # noqa
+    logging.getLogger('py_balcalc').setLevel(logging.CRITICAL)
     f = os.path.abspath(py_ballisticcalc.__file__)
     if not f.startswith(REPO + os.sep):
         raise HarnessError(f'py_ballisticcalc imported from {f}, not from {REPO}')
